@@ -665,6 +665,23 @@ func runC06(c *worker.Ctx) {
 				}
 			}
 		}
+		// 3b. with restarts: X-Cache reflects the branch of the final pass
+		if v.exact && !reported && r.Proc.Restarts > 0 && contains(obs, "deliver") {
+			last := 0
+			for k, sc := range obs {
+				if sc == "recv" {
+					last = k
+				}
+			}
+			final := obs[last:]
+			xc := r.Proc.ClientResponse.Headers["x-cache"]
+			if contains(final, "hit") && xc != "HIT" {
+				res.Violate("C06/report", "C06/report:x-cache-after-restart", fmt.Sprintf("request %d: final pass %v took the hit branch but X-Cache=%q\nprogram:\n%s", i, final, xc, vcl))
+			}
+			if !contains(final, "hit") && (contains(final, "miss") || contains(final, "pass")) && xc == "HIT" {
+				res.Violate("C06/report", "C06/report:x-cache-after-restart", fmt.Sprintf("request %d: final pass %v did not take the hit branch but X-Cache=HIT\nprogram:\n%s", i, final, vcl))
+			}
+		}
 		// 4. rate counter and penalty box persistence
 		if p.RateDelta > 0 && contains(obs, "deliver") && !reported && r.Proc.Restarts == 0 && len(obs) > 0 {
 			client := r.Spec.Header.Get("X-Client")
